@@ -15,7 +15,9 @@
 #include "SimTKcommon.h"
 #include "SimTKcommon/internal/SystemGuts.h"
 
+#include <exception>
 #include <functional>
+#include <string>
 
 namespace odesys {
 using namespace SimTK;
@@ -23,6 +25,17 @@ using namespace SimTK;
 // udot and zdot are pre-sized (nq, nz); fill them.
 typedef std::function<void(Real t, const Vector& q, const Vector& u, const Vector& z, const Vector& d,
                            Vector& udot, Vector& zdot)> RhsFn;
+
+// Work budget: a harness may bound the number of realizations the library performs inside one call (a request
+// that loops forever inside the library still realizes the state in every iteration).  When the budget is
+// exhausted every further realization throws WorkBudgetExceeded, which unwinds through the library as an
+// ordinary C++ exception (no signals, no longjmp).  budget < 0: unlimited.
+struct WorkBudgetExceeded : std::exception {
+    const char* what() const noexcept override { return "odesys work budget exceeded: the call does not terminate"; }
+};
+inline long& workBudget() { static long b = -1; return b; }
+inline void spendWork() { long& b = workBudget(); if (b < 0) return; if (b == 0) throw WorkBudgetExceeded(); --b; }
+inline bool isBudgetMessage(const std::string& what) { return what.find("odesys work budget exceeded") != std::string::npos; }
 
 class OdeSystem;
 class OdeGuts : public System::Guts {
@@ -45,10 +58,12 @@ public:
         return 0;
     }
     int realizeVelocityImpl(const State& s) const override {
+        spendWork();
         if (nq) s.updQDot(subsys) = s.getU(subsys);
         return 0;
     }
     int realizeAccelerationImpl(const State& s) const override {
+        spendWork();
         Vector udot(nq), zdot(nz);
         Vector q(nq), u(nq), z(nz);
         if (nq) { q = s.getQ(subsys); u = s.getU(subsys); }
